@@ -367,7 +367,16 @@ pub fn run_cases(rt: &tokio::runtime::Runtime, cases: &[Case1], r: &mut Report, 
         if pairs >= 1 {
             r.inc("distinct_nontrivial");
         }
-        if let Err(e) = check_outputs(c, out) {
+        let mut verdict = check_outputs(c, out);
+        if matches!(&verdict, Err(e) if e.starts_with("hang")) && !some_shard_runs_dry(c, rt) {
+            // a hang that the known finding does not explain: before it is reported, the case is run
+            // again on its own with a generous deadline (the first deadline is short because every
+            // dry-shard input has to wait for it; a loaded machine must not turn into an alarm)
+            r.inc("hang_rechecks");
+            let again = rt.block_on(hybrid_world(c, passthrough(), Duration::from_secs(600), Duration::from_secs(10)));
+            verdict = check_outputs(c, &again);
+        }
+        if let Err(e) = verdict {
             let dry = some_shard_runs_dry(c, rt);
             let sig = if e.starts_with("hang") { "hang" } else if e.contains("ZeroRecords") { "zero-records" } else if e.contains("histogram") { "wrong-histogram" } else { "error" };
             let key = if dry && (sig == "hang" || sig == "zero-records" || sig == "error") {
